@@ -123,15 +123,18 @@ def kernel(f, name, sparse):
         raise Refuse("the mask is not applied to every per-entry array")
     if not sparse and any(k.used_mask):
         raise Refuse("unexpected mask")
-    es = f"(es.filter fun e => {mask_expr})" if sparse else "es"
-    dec = "[DecidableEq R] " if sparse else ""
-    return (f"def {name} {dec}(dims : Nat) (es : List Entry) (a b : Array R) : Array R :=\n"
-            f"  {es}.foldl (fun out e => out.modify {lidx} (· + {term})) (Array.replicate dims 0)\n")
+    if sparse:
+        return (f"def {name}_mask [DecidableEq R] (a b : Array R) (e : Entry) : Bool := {mask_expr}\n"
+                f"def {name}_step (a b : Array R) (out : Array R) (e : Entry) : Array R := out.modify {lidx} (· + {term})\n"
+                f"def {name} [DecidableEq R] (dims : Nat) (es : List Entry) (a b : Array R) : Array R :=\n"
+                f"  (es.filter fun e => {name}_mask a b e).foldl (fun out e => {name}_step a b out e) (Array.replicate dims 0)\n")
+    return (f"def {name} (dims : Nat) (es : List Entry) (a b : Array R) : Array R :=\n"
+            f"  es.foldl (fun out e => out.modify {lidx} (· + {term})) (Array.replicate dims 0)\n")
 
 
 def main():
     repo = Path(sys.argv[sys.argv.index('--repo') + 1]) if '--repo' in sys.argv else Path('/repo')
-    out = ["import Model.Kernel\n\n/-! GENERATED from the current source by translate/kernels2lean.py — do not edit -/\n"
+    out = ["import Model.Kernel\nimport Mathlib.Tactic.Ring\n\n/-! GENERATED from the current source by translate/kernels2lean.py — do not edit -/\n"
            "set_option linter.unusedVariables false\nnamespace GenKern\nopen Model\nvariable {R : Type} [Add R] [Mul R] [Zero R] [IntCast R]\n\n"]
     status, thms = {}, []
     tree = ast.parse((repo / 'clifford' / '__init__.py').read_text())
@@ -147,12 +150,20 @@ def main():
             status[name] = dict(status='refused', reason=repr(r)[:200])
 
     emit('kernel_dense', lambda: kernel(find(tree, '_get_mult_function'), 'mv_mult_dense', False),
-         "theorem kernel_dense_eq {R : Type} [Add R] [Mul R] [Zero R] [IntCast R] (dims : Nat) (es : List Model.Entry) (a b : Array R) : "
-         "GenKern.mv_mult_dense dims es a b = Model.multDense dims es a b := by\n  simp only [GenKern.mv_mult_dense, Model.multDense]\n")
+         "theorem kernel_dense_eq {R : Type} [CommRing R] (dims : Nat) (es : List Model.Entry) (a b : Array R) : "
+         "GenKern.mv_mult_dense dims es a b = Model.multDense dims es a b := by\n"
+         "  first | (simp only [GenKern.mv_mult_dense, Model.multDense]; done)\n"
+         "        | (simp only [GenKern.mv_mult_dense, Model.multDense]; first | rfl | (congr 1; funext out e; congr 1; funext x; ring))\n")
     emit('kernel_sparse', lambda: kernel(find(tree, '_get_mult_function_runtime_sparse'), 'mv_mult_sparse', True),
-         "theorem kernel_sparse_eq {R : Type} [Add R] [Mul R] [Zero R] [IntCast R] [DecidableEq R] (dims : Nat) (es : List Model.Entry) (a b : Array R) : "
+         "theorem kernel_sparse_eq {R : Type} [CommRing R] [DecidableEq R] (dims : Nat) (es : List Model.Entry) (a b : Array R) : "
          "GenKern.mv_mult_sparse dims es a b = Model.multSparse dims es a b := by\n"
-         "  simp only [GenKern.mv_mult_sparse, Model.multSparse, Model.multDense]\n  first | rfl | (congr 2; funext e; simp [Model.nzMask])\n")
+         "  have hmask : ∀ e : Model.Entry, GenKern.mv_mult_sparse_mask a b e = Model.nzMask a b e := by\n"
+         "    intro e; first | (simp only [GenKern.mv_mult_sparse_mask, Model.nzMask]; done) | (simp only [GenKern.mv_mult_sparse_mask, Model.nzMask]; first | rfl | (simp [Bool.and_comm]))\n"
+         "  have hstep : ∀ (out : Array R) (e : Model.Entry), GenKern.mv_mult_sparse_step a b out e = out.modify e.l (· + a.getD e.k 0 * (e.v : R) * b.getD e.m 0) := by\n"
+         "    intro out e; first | (simp only [GenKern.mv_mult_sparse_step]; done) | (simp only [GenKern.mv_mult_sparse_step]; first | rfl | (congr 1; funext x; ring))\n"
+         "  simp only [GenKern.mv_mult_sparse, Model.multSparse, Model.multDense]\n"
+         "  rw [show (fun e => GenKern.mv_mult_sparse_mask a b e) = Model.nzMask a b from funext hmask]\n"
+         "  first | rfl | (congr 1; funext out e; exact hstep out e)\n")
 
     def gen_dispatch():
         f = find(tree, 'get_mult_function')
@@ -188,7 +199,7 @@ def main():
                 "  match ga, gb with\n  | some ga, some gb => mv_mult_dense dims (grade_filter grade ga gb es) a b\n  | _, _ => mv_mult_sparse dims es a b\n")
     if status.get('kernel_dense', {}).get('status') == 'ok' and status.get('kernel_sparse', {}).get('status') == 'ok':
         emit('kernel_dispatch', gen_dispatch,
-             "theorem kernel_dispatch_eq {R : Type} [Add R] [Mul R] [Zero R] [IntCast R] [DecidableEq R] (dims : Nat) (grade : Nat → Nat) (es : List Model.Entry) "
+             "theorem kernel_dispatch_eq {R : Type} [CommRing R] [DecidableEq R] (dims : Nat) (grade : Nat → Nat) (es : List Model.Entry) "
              "(ga gb : Option (List Nat)) (a b : Array R) : GenKern.get_mult_function dims grade es ga gb a b = Model.getMultFunction dims grade es ga gb a b := by\n"
              "  cases ga <;> cases gb <;> simp only [GenKern.get_mult_function, Model.getMultFunction, GenKern.grade_filter, Model.gradeFilter, kernel_dense_eq, kernel_sparse_eq]\n")
     else:
